@@ -8,6 +8,9 @@ classes -> module `Gen.FaultFootprint` (Lean list literals), regenerated from th
  raw_alloc        (class, function, kind) for every `new` / `delete` expression and every call of malloc/calloc/realloc/free/
                   aligned_malloc/... in a scanned function (constructors, destructors and all other members)
  try_catch        (class, function, "try" | "catch") for every try block / handler in a scanned function
+ catch_handlers   for every handler: (class, function, handler is catch-all `catch (...)`, handler's LAST statement is a bare `throw;`
+                  (rethrow of the same exception object), the calls made inside the handler rendered as base.method(args));
+ catch_handler_shape (class, function, number of statements of the handler, number of throw expressions in the handler)
  throws           (class, function, exception type | "rethrow") for every throw expression in a scanned function
  sri_*            `SparseRegularInverse::solve`: the members it assigns, its status/throw logic (translated structurally:
                   `m_info = (m_cg.info() == Eigen::Success) ? Successful : NotConverging; if (m_info != Successful) throw
@@ -62,6 +65,52 @@ def thrown_type(th):
         if t and 'dependent' not in t and t != 'void': return t.replace('const ', '')
     return '?'
 
+def first_name(n):
+    for x in walk(n):
+        k = x.get('kind')
+        if k == 'MemberExpr': return x.get('name', '?')
+        if k in ('CXXDependentScopeMemberExpr', 'UnresolvedMemberExpr'): return x.get('member') or x.get('name') or '?'
+        if k == 'DeclRefExpr': return x.get('referencedDecl', {}).get('name', '?')
+        if k in ('UnresolvedLookupExpr', 'DependentScopeDeclRefExpr'): return x.get('name', '?')
+        if k in ('IntegerLiteral', 'FloatingLiteral'): return str(x.get('value', '?'))
+    return '?'
+
+def token_text(cls, node):
+    """source token of a node without a name (an UnresolvedMemberExpr for a using-declared base member such as `m_op`):
+    read from the header named after the class"""
+    import glob, os
+    b = node.get('range', {}).get('begin', {})
+    if 'offset' not in b or 'tokLen' not in b: return '?'
+    fs = glob.glob(os.path.join(astdump.INC, 'Spectra', '**', cls.split('::')[0] + '.h'), recursive=True)
+    if len(fs) != 1: return '?'
+    src = open(fs[0], 'rb').read()
+    return src[b['offset']: b['offset'] + b['tokLen']].decode('utf8', 'replace')
+
+def render_call(call, cls):
+    inner = call.get('inner', [])
+    if not inner: return '?'
+    callee = inner[0]
+    while callee.get('kind') in ('ImplicitCastExpr', 'ParenExpr') and callee.get('inner'): callee = callee['inner'][0]
+    meth = callee.get('member') or callee.get('name') or callee.get('referencedDecl', {}).get('name') or '?'
+    base = ''
+    if callee.get('kind') in ('MemberExpr', 'CXXDependentScopeMemberExpr', 'UnresolvedMemberExpr') and callee.get('inner'):
+        b = callee['inner'][0]
+        while b.get('kind') in ('ImplicitCastExpr', 'ParenExpr') and b.get('inner'): b = b['inner'][0]
+        base = (b.get('name') or b.get('member') or b.get('referencedDecl', {}).get('name') or ('this' if b.get('kind') == 'CXXThisExpr' else token_text(cls, b))) + '.'
+    return base + meth + '(' + ','.join(first_name(a) for a in inner[1:]) + ')'
+
+def describe_handler(h, cls):
+    """(is catch-all, last statement is a bare `throw;`, calls in the handler, number of statements, number of throw expressions)"""
+    catch_all = not any(c.get('kind') == 'VarDecl' for c in h.get('inner', []))
+    body = [c for c in h.get('inner', []) if c.get('kind') == 'CompoundStmt']
+    stmts = body[0].get('inner', []) if body else []
+    last = stmts[-1] if stmts else {}
+    while last.get('kind') in ('ExprWithCleanups', 'ParenExpr') and last.get('inner'): last = last['inner'][0]
+    bare = last.get('kind') == 'CXXThrowExpr' and not last.get('inner')
+    calls = [render_call(n, cls) for n in walk(h) if n.get('kind') in ('CallExpr', 'CXXMemberCallExpr', 'CXXOperatorCallExpr', 'CXXConstructExpr', 'CXXUnresolvedConstructExpr', 'CXXNewExpr', 'CXXDeleteExpr')]
+    nthrow = sum(1 for n in walk(h) if n.get('kind') == 'CXXThrowExpr')
+    return catch_all, bare, calls, len(stmts), nthrow
+
 def scan_function(cls, fn, res):
     has_body = any(c.get('kind') in ('CompoundStmt', 'CXXTryStmt') for c in fn.get('inner', []))
     if not has_body: return False
@@ -71,7 +120,7 @@ def scan_function(cls, fn, res):
         if k == 'CXXNewExpr': res['alloc'].append((cls, name, 'new'))
         elif k == 'CXXDeleteExpr': res['alloc'].append((cls, name, 'delete'))
         elif k == 'CXXTryStmt': res['try'].append((cls, name, 'try'))
-        elif k == 'CXXCatchStmt': res['try'].append((cls, name, 'catch'))
+        elif k == 'CXXCatchStmt': res['try'].append((cls, name, 'catch')); res['handlers'].append((cls, name) + describe_handler(n, cls))
         elif k == 'CXXThrowExpr': res['throws'].append((cls, name, thrown_type(n)))
         elif k in ('CallExpr', 'CXXMemberCallExpr'):
             for cn in callee_names(n)[:1]:
@@ -96,7 +145,7 @@ def lean_str(s): return '"' + s.replace('\\', '\\\\').replace('"', '\\"') + '"'
 def lean_list(items, f): return '[' + ', '.join(f(i) for i in items) + ']'
 
 def fault_footprint(tu, t):
-    res = {'alloc': [], 'try': [], 'throws': [], 'nfun': {}}
+    res = {'alloc': [], 'try': [], 'throws': [], 'nfun': {}, 'handlers': []}
     found = {}
     for o in tu.objs:
         k = o.get('kind'); nm = o.get('name', '?')
@@ -124,6 +173,13 @@ def fault_footprint(tu, t):
     s += 'def raw_alloc : List (String × String × String) := ' + lean_list(dedup(res['alloc']), trip) + '\n\n'
     s += '-- every try block / catch handler in a scanned function\n'
     s += 'def try_catch : List (String × String × String) := ' + lean_list(dedup(res['try']), trip) + '\n\n'
+    lb = lambda b: 'true' if b else 'false'
+    s += '-- every catch handler: (class, function, catch-all, last statement is a bare `throw;`, calls inside the handler)\n'
+    s += 'def catch_handlers : List (String × String × Bool × Bool × List String) := ' + lean_list(sorted(res['handlers']),
+        lambda x: f'({lean_str(x[0])}, {lean_str(x[1])}, {lb(x[2])}, {lb(x[3])}, {lean_list(x[4], lean_str)})') + '\n'
+    s += '-- ... and its shape: (class, function, number of statements of the handler, number of throw expressions in the handler)\n'
+    s += 'def catch_handler_shape : List (String × String × Nat × Nat) := ' + lean_list(sorted(res['handlers']),
+        lambda x: f'({lean_str(x[0])}, {lean_str(x[1])}, {x[5]}, {x[6]})') + '\n\n'
     s += '-- every throw expression in a scanned function: (class, function, thrown type or "rethrow")\n'
     s += 'def throws : List (String × String × String) := ' + lean_list(dedup(res['throws']), trip) + '\n'
     return s
